@@ -51,6 +51,13 @@
 (*        reply with itself.  Repair (fixes/C11-2): the context remembers  *)
 (*        the requested address (new optional field) and                   *)
 (*        verify_slate_payment_proof compares the reply with it as well.   *)
+(*   "SenderKeyFromActive"  tx::update_stored_tx signs the sender's half   *)
+(*        with, and stores as sender address, address 0 of the ACTIVE      *)
+(*        account, while the slate (and the recipient's signature) name    *)
+(*        address 0 of the SOURCE account; since finalize_tx works from    *)
+(*        any active account (it takes the account from the context) the   *)
+(*        two can differ and the exported proof does not verify.  Repair   *)
+(*        (fixes/C11-3): derive both from the entry's account.             *)
 (* Named under-modelling: the coin selection is reduced to the shapes the  *)
 (* cases use (Sel below; the algorithm itself is the business of C01), a   *)
 (* funded account holds two coinbases of Reward each.                      *)
@@ -88,7 +95,8 @@ ProofFields == {"amt", "exc", "ra", "rs", "sa", "ss"}
 \*   incfee   amount_includes_fee
 \*   nchange  num_change_outputs
 \*   src      src_acct_name: "" (none) or an account; actI / actF: w1's active account at
-\*            init / from the lock-with-reply on (finalize, export)
+\*            init / at the lock-with-reply and finalize (the proof is exported from the
+\*            source account, where the log entry lives)
 \*   late     late_lock;  lock: "S1" (lock with the slate that is sent), "S2" (lock with the
 \*            reply as received, just before finalize), "none" (never; always for late)
 \*   req      the recipient address the sender asks a proof from
@@ -116,7 +124,7 @@ SlateAmt(c) == IF c.incfee THEN c.amt - Sel(c).fee ELSE c.amt
 WellFormed(c) ==
   /\ Sel(c).ok /\ SlateAmt(c) > 1
   /\ Sel(c).chg % c.nchange = 0                \* unit rule of DESIGN.md 2.1 (C01 owns the remainder)
-  /\ (c.late => c.lock = "none" /\ ~c.incfee)
+  /\ (c.late => c.lock = "none")
   /\ (~c.late => c.lock \in {"S1", "S2", "none"})
 
 \* ------------------------------------------------------------- model state
@@ -139,7 +147,7 @@ Start(c) ==
 DoInit(ms) ==
   LET c == ms.c
       p == SlateProof(SenderAddr(c), c.req, NoSig)
-      cx == [ex |-> TRUE, acct |-> SrcEff(c), amt |-> IF c.late THEN c.amt ELSE SlateAmt(c),
+      cx == [ex |-> TRUE, acct |-> SrcEff(c), amt |-> SlateAmt(c),
              fee |-> Sel(c).fee, pidx |-> 0, late |-> c.late, req |-> c.req]
   IN [ms EXCEPT !.ctx = cx, !.s1 = p, !.amt = cx.amt,
                 !.last = [op |-> "init", res |-> "ok", amt |-> cx.amt, fee |-> cx.fee, proof |-> p,
@@ -201,12 +209,13 @@ DoTamper(ms, t) ==
   IN [ms EXCEPT !.rp = rp, !.last = [op |-> "tamper", res |-> IF ms.got THEN "ok" ELSE "skip", proof |-> rp]]
 
 \* --------------------------------------------------------------- Finalize
-\* tx::verify_slate_payment_proof(wallet, active account, ctx, slate) on entry e
-\* (e = the TxSent entry found by slate id IN THE ACTIVE ACCOUNT, or NoEnt)
-VerifySlateProof(e, active, cx, p) ==
+\* tx::verify_slate_payment_proof(wallet, account, ctx, slate) on entry e
+\* (e = the TxSent entry found by slate id IN THE GIVEN ACCOUNT, or NoEnt; finalize_tx passes the
+\* context's account - the source account - whatever account is active)
+VerifySlateProof(e, acct, cx, p) ==
   LET orig == e.proof
-      mine == Addr(SenderW, active)           \* address_from_derivation_path(active, ctx index)
-  IN IF ~(e.ex /\ e.acct = active) THEN "err:proof"                  \* "is account correct?"
+      mine == Addr(SenderW, acct)             \* address_from_derivation_path(account, ctx index)
+  IN IF ~(e.ex /\ e.acct = acct) THEN "err:proof"                    \* "is account correct?"
      ELSE IF orig.ex /\ ~p.has THEN "err:proof"                      \* expected proof not present
      ELSE IF "StrippedUnnoticed" \notin Dev /\ cx.pidx >= 0 /\ ~p.has THEN "err:proof"   \* (fixes/C11-1)
      ELSE IF ~p.has THEN "ok"
@@ -224,8 +233,8 @@ LateRequestOK(cx, p) == p.has /\ p.ra = cx.req
 
 \* foreign::finalize_tx, state S2.  Late: select + lock (with the reply!) BEFORE any check.
 \* tx::update_stored_tx: kernel := final excess; proof info rewritten from the slate with the
-\* sender's signature over <<amount, final excess, SLATE's sender address>> by the ACTIVE
-\* account's address key.
+\* sender's signature over <<amount, final excess, SLATE's sender address>>; key and stored
+\* sender address: address 0 of the ACTIVE account (code) / of the entry's account (repaired).
 DoFinalize(ms, fapi) ==
   LET c == ms.c
       cx == ms.ctx
@@ -243,22 +252,24 @@ DoFinalize(ms, fapi) ==
      ELSE
        LET e1 == IF cx.late THEN LockEntry(cx, Sel(c), p, "rpart") ELSE ms.ent
            cx1 == [cx EXCEPT !.late = FALSE]
-           v == VerifySlateProof(e1, active, cx1, p)
+           v == VerifySlateProof(e1, cx.acct, cx1, p)
+           ka == IF "SenderKeyFromActive" \in Dev THEN active ELSE e1.acct
        IN IF v # "ok"
           THEN [ms EXCEPT !.ent = e1, !.ctx = cx1, !.fin = v, !.last = obs(v, e1)]
           ELSE
             LET e2 == [e1 EXCEPT !.kern = "final",
                          !.proof = IF p.has
-                                   THEN Stored(p.ra, p.rs, Addr(SenderW, active),
-                                               PSig(Addr(SenderW, active), cx.amt, "final", p.sa))
+                                   THEN Stored(p.ra, p.rs, Addr(SenderW, ka),
+                                               PSig(Addr(SenderW, ka), cx.amt, "final", p.sa))
                                    ELSE e1.proof]
             IN [ms EXCEPT !.ent = e2, !.ctx = NoCtx, !.fin = "ok", !.last = obs("ok", e2)]
 
 \* ----------------------------------------------------------------- Export
-\* owner::retrieve_payment_proof by slate id: exactly one entry in the ACTIVE account
+\* owner::retrieve_payment_proof by slate id: exactly one entry in the ACTIVE account; the
+\* sender exports from the source account (the harness activates it first)
 DoExport(ms) ==
   LET e == ms.ent
-      active == ms.c.actF
+      active == SrcEff(ms.c)
       amount == IF e.cr >= e.db THEN e.cr - e.db ELSE e.db - e.cr - e.fee
       bad == \/ ~(e.ex /\ e.acct = active) \/ ~e.proof.ex \/ e.kern = ""
              \/ ~Present(e.proof.rs) \/ ~Present(e.proof.ss)
@@ -330,7 +341,7 @@ DoVerify(ms, m, vaddr) ==
 \* an instruction: [op, a, v, b]  (a: stage / tamper id / mutation id; v: verifying wallet; b: flag)
 I(op, a, v, b) == [op |-> op, a |-> a, v |-> v, b |-> b]
 VerifierAddr(v) == Addr(v, "a0")               \* verifying wallets other than w1 stay on their default account
-VAddr(ms, v) == IF v = SenderW THEN Addr(SenderW, ms.c.actF) ELSE IF v = RecipW THEN Addr(RecipW, ms.c.actR) ELSE VerifierAddr(v)
+VAddr(ms, v) == IF v = SenderW THEN Addr(SenderW, SrcEff(ms.c)) ELSE IF v = RecipW THEN Addr(RecipW, ms.c.actR) ELSE VerifierAddr(v)
 
 Step(ms, i) ==
   CASE i.op = "init"     -> DoInit(ms)
